@@ -267,7 +267,7 @@ Definition no_wrap (prog : program) (start : N) : bool := start + sum_dur prog <
 
 Definition spec_trace (c : trace_case) : bool :=
   all_ok (ev_ok (c_prog c) (c_start c) (c_h0 c) (c_total c)) [] (c_events c)
-  && (if c_eager c && timely_from (c_h0 c) (c_events c) && no_wrap (c_prog c) (c_start c)
+  && (if c_eager c && timely_from (c_h0 c) (c_events c)
       then all_ok (ev_exact (c_prog c) (c_start c) (c_h0 c)) [] (c_events c) else true).
 
 Definition agree_trace (c : trace_case) : bool :=
